@@ -167,6 +167,14 @@ def _array_unify(obj, dtype=None, **k):
     return _array(obj, dtype, **k)
 
 
+def _finfo(dt):
+    """machine limits of the float type numba would use: object arrays of symbolic reals stand for float64"""
+    try:
+        return _np.finfo(dt)
+    except (ValueError, TypeError):
+        return _np.finfo(_np.float64)
+
+
 class NPProxy:
     def __init__(self, unify=False):
         if unify:
@@ -188,6 +196,7 @@ class NPProxy:
     log1p = staticmethod(_log1p)
     isinf = staticmethod(_isinf)
     cumsum = staticmethod(_cumsum)
+    finfo = staticmethod(_finfo)
 
     def __getattr__(self, n):
         return getattr(_np, n)
